@@ -26,6 +26,7 @@ func init() {
 var padDirective = regexp.MustCompile(`%0(\d+)d\.part`)
 
 func runC28(c *eng.Ctx) {
+	pagingEnds(c, "PROV-assemble")
 	P := c.P
 	// ---------------------------------------------------------------- (1) CONST-partname
 	type psite struct {
